@@ -1,9 +1,12 @@
 #!/bin/bash
 # gen/seeded_regress.sh : apply every seeded change in turn, run the check of its property, undo; print one line each.
-cd /verif
+# Runs from whatever copy of /verif it lives in; with HT_REPO set it patches that snapshot instead of /repo
+# (vp run --with-repo -- bash -c 'export HT_REPO=$VP_RUN_REPO; ./setup.sh; ./gen/seeded_regress.sh').
+V=$(cd "$(dirname "$0")/.." && pwd)
+cd "$V"
 for d in seeded/*/; do
   id=$(basename $d); prop=${id%%-*}
-  res=$(./gen/try_seeded.sh /verif/$d/patch.diff $prop 2>&1 | head -1)
+  res=$(./gen/try_seeded.sh $V/$d/patch.diff $prop 2>&1 | head -1)
   case "$res" in
     *VIOLATION*no-failing-input-found*) echo "$id: DETECTED (no-failing-input-found)";;
     *VIOLATION*) echo "$id: DETECTED (concrete failing input)";;
